@@ -11,6 +11,7 @@ package main
 
 import (
 	"bytes"
+	"crypto/x509"
 	"fmt"
 	"strings"
 
@@ -220,4 +221,153 @@ func emitHistory(w *lib.Writer, seed uint64, idx int) {
 	w.Put(lib.Case{Klass: "history/" + kind, Input: lib.MustJSON(map[string]any{"part": "history", "seed": seed, "history_index": idx,
 		"key": kp.Name, "operations": ops, "go_value": fmt.Sprintf("%+q", fmt.Sprintf("%#v", orig))}),
 		Impl: obs, Oracle: "same verify-before=ok verify-after=ok"})
+}
+
+// ---------------------------------------------------------------- certificate constraints
+// Checking a functionary certificate against the constraints of a step reads the layout; the signable bytes of
+// that layout object must be what they were (class history-certconstraint/layout).  The constraint lists have two or
+// more entries that are NOT in sorted order, one constraint matches the certificate, one does not.
+
+type certEnv struct {
+	roots   []*lib.CA
+	leaf    lib.Leaf
+	rootIDs []string
+}
+
+var theCertEnv *certEnv
+
+func getCertEnv() *certEnv {
+	if theCertEnv == nil {
+		r1, r2 := lib.NewCA("c11-root-a", nil, lib.CertOpts{}), lib.NewCA("c11-root-b", nil, lib.CertOpts{})
+		leaf := r1.NewLeaf(lib.CertOpts{CN: "builder.example.com", Orgs: []string{"zeta org", "alpha org", "midway"},
+			DNS: []string{"z.example.com", "a.example.com", "m.example.com"}, Emails: []string{"zed@example.com", "amy@example.com"},
+			URIs: []string{"spiffe://example.com/z", "spiffe://example.com/a"}})
+		theCertEnv = &certEnv{roots: []*lib.CA{r1, r2}, leaf: leaf, rootIDs: []string{r1.Key.KeyID, r2.Key.KeyID}}
+	}
+	return theCertEnv
+}
+
+func unsorted(r *lib.Rng, xs []string) []string {
+	out := append([]string{}, xs...)
+	for try := 0; try < 50; try++ {
+		r.Shuffle(len(out), func(i, j int) { out[i], out[j] = out[j], out[i] })
+		sorted := true
+		for i := 1; i < len(out); i++ {
+			if out[i-1] > out[i] {
+				sorted = false
+			}
+		}
+		if !sorted {
+			return out
+		}
+	}
+	// two or more distinct entries can always be put in descending order
+	for i, j := 0, len(out)-1; i < j; i, j = i+1, j-1 {
+		out[i], out[j] = out[j], out[i]
+	}
+	return out
+}
+
+func certLayout(seed uint64, idx int, kp lib.KeyPair) intoto.Layout {
+	ce := getCertEnv()
+	r := lib.NewRng(seed*611953 + uint64(idx)*29 + 7)
+	c := ce.leaf.Cert
+	uris := []string{}
+	for _, u := range c.URIs {
+		uris = append(uris, u.String())
+	}
+	match := intoto.CertificateConstraint{CommonName: c.Subject.CommonName, DNSNames: unsorted(r, c.DNSNames), Emails: unsorted(r, c.EmailAddresses),
+		Organizations: unsorted(r, c.Subject.Organization), Roots: unsorted(r, ce.rootIDs), URIs: unsorted(r, uris)}
+	other := intoto.CertificateConstraint{CommonName: "someone.else", DNSNames: unsorted(r, []string{"y.example.org", "b.example.org", "q.example.org"}),
+		Emails: unsorted(r, []string{"zoe@example.org", "bob@example.org"}), Organizations: unsorted(r, append([]string{"other"}, c.Subject.Organization...)),
+		Roots: unsorted(r, []string{"ffff", "0000", ce.rootIDs[0]}), URIs: unsorted(r, []string{"spiffe://example.org/y", "spiffe://example.org/b"})}
+	ccs := []intoto.CertificateConstraint{other, match}
+	if r.Bool() {
+		ccs = []intoto.CertificateConstraint{match, other}
+	}
+	l := intoto.Layout{Type: "layout", Expires: "2030-01-01T00:00:00Z", Keys: map[string]intoto.Key{kp.Pub.KeyID: kp.Pub},
+		RootCas: map[string]intoto.Key{ce.roots[0].Key.KeyID: ce.roots[0].Key, ce.roots[1].Key.KeyID: ce.roots[1].Key}}
+	s := intoto.Step{Type: "step", PubKeys: []string{}, CertificateConstraints: ccs, ExpectedCommand: []string{"make"}, Threshold: 1}
+	s.Name = "build"
+	s.ExpectedMaterials = [][]string{}
+	s.ExpectedProducts = [][]string{{"ALLOW", "*"}}
+	s2 := intoto.Step{Type: "step", PubKeys: []string{kp.Pub.KeyID}, CertificateConstraints: []intoto.CertificateConstraint{other}, ExpectedCommand: []string{}, Threshold: 1}
+	s2.Name = "package"
+	l.Steps = []intoto.Step{s, s2}
+	l.Inspect = []intoto.Inspection{}
+	return l
+}
+
+func emitCertHistory(w *lib.Writer, seed uint64, idx int) {
+	pool := lib.DefaultPool
+	kp := lib.GetKeyPair(pool[idx%len(pool)])
+	ce := getCertEnv()
+	r := lib.NewRng(seed*8209 + uint64(idx))
+	orig, work := certLayout(seed, idx, kp), certLayout(seed, idx, kp)
+	ref, _ := oracleCanon(sanitizeGeneric(oracleGeneric(orig)))
+	rootPool, interPool := x509NewPool(ce.roots[0].Cert, ce.roots[1].Cert), x509NewPool()
+	var ops []string
+	obs := lib.Recover(func() string {
+		mb := &intoto.Metablock{Signed: work}
+		if err := mb.Sign(kp.Priv); err != nil {
+			return "ERR-sign"
+		}
+		b1, err := mb.GetSignableRepresentation()
+		if err != nil {
+			return "ERR-canon"
+		}
+		if !bytes.Equal(b1, ref) {
+			return "bytes-before-history-differ-from-reference"
+		}
+		v1 := errOrOk(mb.VerifySignature(kp.Pub))
+		matched := "?"
+		check := func(op string) string {
+			ops = append(ops, op)
+			b2, err := mb.GetSignableRepresentation()
+			if err != nil || !bytes.Equal(b1, b2) {
+				return "bytes-changed-after:" + op
+			}
+			return ""
+		}
+		lay := mb.Signed.(intoto.Layout)
+		ids := func() []string { return append([]string{}, ce.rootIDs...) }
+		steps := []func() string{
+			func() string {
+				quiet(func() { matched = errOrOk(lay.Steps[0].CheckCertConstraints(ce.leaf.Key, ids(), rootPool, interPool)) })
+				return check("Step.CheckCertConstraints(matching step)")
+			},
+			func() string {
+				quiet(func() { lay.Steps[1].CheckCertConstraints(ce.leaf.Key, ids(), rootPool, interPool) })
+				return check("Step.CheckCertConstraints(non-matching step)")
+			},
+			func() string {
+				for _, s := range lay.Steps {
+					for _, cc := range s.CertificateConstraints {
+						quiet(func() { cc.Check(ce.leaf.Cert, ids(), rootPool, interPool) })
+					}
+				}
+				return check("CertificateConstraint.Check")
+			},
+			func() string { quiet(func() { mb.VerifySignature(kp.Pub) }); return check("VerifySignature") },
+			func() string { quiet(func() { intoto.ValidateMetablock(*mb) }); return check("ValidateMetablock") },
+		}
+		r.Shuffle(len(steps), func(i, j int) { steps[i], steps[j] = steps[j], steps[i] })
+		for _, st := range steps {
+			if bad := st(); bad != "" {
+				return bad
+			}
+		}
+		return "same verify-before=" + v1 + " verify-after=" + errOrOk(mb.VerifySignature(kp.Pub)) + " matching-constraint=" + matched
+	})
+	w.Put(lib.Case{Klass: "history-certconstraint/layout", Input: lib.MustJSON(map[string]any{"part": "history-cert", "seed": seed, "history_index": idx,
+		"key": kp.Name, "operations": ops, "go_value": fmt.Sprintf("%+q", fmt.Sprintf("%#v", orig.Steps))}),
+		Impl: obs, Oracle: "same verify-before=ok verify-after=ok matching-constraint=ok"})
+}
+
+func x509NewPool(certs ...*x509.Certificate) *x509.CertPool {
+	p := x509.NewCertPool()
+	for _, c := range certs {
+		p.AddCert(c)
+	}
+	return p
 }
